@@ -122,7 +122,8 @@ def robustly_nonplanar(points, threshold=1.0, margin=0.05):
 
 
 SMILES = ["C[C@H](F)Cl", "C[C@@H](O)C(=O)O", "F/C=C/Cl", "F/C=C\\Cl", "C1CC1", "c1ccccc1", "CC(=O)N", "C[C@H](N)C(=O)O",
-          "O=C=O", "CC#N", "C[C@H]1CC[C@@H](C)CC1", "CS(=O)C", "OC[C@H](O)C=O", "C/C=C/C=C/C", "c1ccncc1", "C1=CCCCC1"]
+          "O=C=O", "CC#N", "C[C@H]1CC[C@@H](C)CC1", "CS(=O)C", "OC[C@H](O)C=O", "C/C=C/C=C/C", "c1ccncc1", "C1=CCCCC1",
+          "CC1=C(C)C1", "FC1=C(Cl)C1", "C/C(Cl)=C/C", "F/C(Cl)=C(/Br)I", "C=C1CC1", "C1=CCC1"]
 
 
 @lru_cache(None)
